@@ -65,17 +65,19 @@ def _log(ctl: str, line: str):
         os.close(fd)
 
 
-def body(nm, ctl, mode, idx, inherit, deps):
+def body(nm, ctl, mode, idx, inherit, deps, emit=None):
     tag = tag_of(nm, idx, deps[0] if inherit else None)
+    # a "lister" node (emit = m) returns a list of m values, over which a successor splits at run time (m may be 0)
+    value = list(range(emit)) if emit is not None else ["J", tag, [d for d in deps if d is not None]]
     if not ctl:  # free-running mode (plain cf / debug workers, C17): no gates, no log
-        return ["J", tag, [d for d in deps if d is not None]]
+        return value
     if mode.startswith("log:"):  # no gates: log start/end, fail if listed (debug worker, C15 sync)
         _log(ctl, f"S {tag} {os.getpid()}")
         if tag in mode[4:].split(","):
             _log(ctl, f"E {tag} err")
             raise ValueError(f"body {tag} fails as scheduled")
         _log(ctl, f"E {tag} ok")
-        return ["J", tag, [d for d in deps if d is not None]]
+        return value
     _log(ctl, f"S {tag} {os.getpid()}")
     tok = os.path.join(ctl, tag + ".finish")
     abort = os.path.join(ctl, "ABORT")
@@ -90,7 +92,7 @@ def body(nm, ctl, mode, idx, inherit, deps):
     _log(ctl, f"E {tag} {what}")
     if what == "err":
         raise ValueError(f"body {tag} fails as scheduled")
-    return ["J", tag, [d for d in deps if d is not None]]
+    return value
 
 
 @python.define(outputs=["out"])
@@ -104,10 +106,11 @@ def Body(
     d1: ty.Any = None,
     d2: ty.Any = None,
     d3: ty.Any = None,
+    emit: ty.Any = None,
 ) -> ty.Any:
     from harness.engines.sched_worker import body
 
-    return body(nm, ctl, mode, idx, inherit, [d0, d1, d2, d3])
+    return body(nm, ctl, mode, idx, inherit, [d0, d1, d2, d3], emit)
 
 
 @python.define(outputs=["out"])
@@ -121,11 +124,12 @@ def BodyT(
     d1: list | None = None,
     d2: list | None = None,
     d3: list | None = None,
+    emit: int | None = None,
 ) -> list:
     """the same body with typed connections (C18: typed back edges)"""
     from harness.engines.sched_worker import body
 
-    return body(nm, ctl, mode, idx, inherit, [d0, d1, d2, d3])
+    return body(nm, ctl, mode, idx, inherit, [d0, d1, d2, d3], emit)
 
 
 def job_tag(job) -> str:
@@ -316,9 +320,10 @@ def _ix(i):
 
 
 class ObsSubmitter(Submitter):
-    def get_runnable_tasks(self, graph):
+    def get_runnable_tasks(self, graph, *args, **kwargs):
+        # pure observer: whatever signature the method has in the tree under test is passed through
         c = CONTROL
-        tasks = super().get_runnable_tasks(graph)
+        tasks = super().get_runnable_tasks(graph, *args, **kwargs)
         if c is not None:
             if c.sorted is None:
                 c.sorted = [n.name for n in graph.sorted_nodes]
@@ -329,7 +334,7 @@ class ObsSubmitter(Submitter):
                 raise Livelock(f"{c.spin} polls without the loop awaiting anything")
         return tasks
 
-    async def fetch_finished(self, futures):
+    async def fetch_finished(self, futures, *args, **kwargs):
         c = CONTROL
         if c is not None:
             c.ev("W", sorted(t.get_name() for t in futures))
@@ -338,4 +343,4 @@ class ObsSubmitter(Submitter):
                 c.spin = 0
                 if c.wake is not None:
                     c.wake.set()
-        return await super().fetch_finished(futures)
+        return await super().fetch_finished(futures, *args, **kwargs)
